@@ -16,8 +16,9 @@ configuration read from the source has comma-ok assertions and the two nil guard
 left); termination of `(*Schema).validate` on every schema graph (`validate_total`); termination of
 `InternalizeRefs` on every object graph (`internalize_total`, the call graph of its unguarded functions is
 acyclic: `deref_cycles_guarded`).
-What stays partial: `visitJSON` through compositions and `MarshalJSON` of an internalized document have no
-visited set (findings CompositionCycle and CallbackCycle — the latter changed by 1c81ad5: InternalizeRefs
+What stays partial: `visitJSON` through compositions, `(*Header).Validate` through the encodings of its
+content and `MarshalJSON` of an internalized document have no visited set (findings CompositionCycle,
+HeaderCycle — new with 78418b3 + cbb0d05 — and CallbackCycle — changed by 1c81ad5: InternalizeRefs
 returns, the serialisation after it does not; `descend_total_partial` under `Ranked`, witness
 `witness_unguarded_cycle`); `InternalizeRefs` panics in `DefaultRefNameResolver` at a reference the loader
 left without location (findings Unresolved / UnwalkedRef: `addToSpec_partial` under `Located`, witnesses
@@ -340,8 +341,9 @@ theorem internalize_example :
     · subst h0; simp at hc; subst hc; simp
     · simp [h0] at hc; subst hc; simp
 
-/-! ## unguarded descents: `visitJSON` through compositions, `MarshalJSON` through the path items of inline
-    callbacks after InternalizeRefs cleared their `$ref` — partial (findings CompositionCycle, CallbackCycle) -/
+/-! ## unguarded descents: `visitJSON` through compositions, `(*Header).Validate` through content → encoding →
+    headers, `MarshalJSON` through the path items of inline callbacks after InternalizeRefs cleared their `$ref`
+    — partial (findings CompositionCycle, HeaderCycle, CallbackCycle) -/
 
 /-- Full statement `∀ g stop i, ∃ fuel, (descend g stop fuel i).isSome` is false (witness below).
     Under `Ranked` (no cycle through non-stopping nodes) the descent terminates with `rank i + 1` fuel. -/
@@ -352,7 +354,8 @@ theorem descend_total_partial (g : Graph) (stop : Nat → Bool) (rank : Nat → 
 /-- finding CompositionCycle: `A: {allOf: [{$ref: A}], default: 1}` — `visitXOFOperations` calls `visitJSON`
     of the sub-schema with the same value and no visited set; finding CallbackCycle:
     `paths./a.get.callbacks.c./cb = {$ref: '#/paths/~1a'}` — after InternalizeRefs `PathItem.MarshalJSON` reaches
-    the `*Operation` it came from: no amount of fuel suffices, and no rank exists -/
+    the `*Operation` it came from; finding HeaderCycle: `H: {content: {m: {encoding: {f: {headers: {X: {$ref: H}}}}}}}` —
+    `Header.Validate` reaches itself: no amount of fuel suffices, and no rank exists -/
 theorem witness_unguarded_cycle :
     (∀ fuel, descend (fun _ => [0]) (fun _ => false) fuel 0 = none) ∧
     ¬ ∃ rank, Ranked (fun _ => [0]) (fun _ => false) rank := by
@@ -519,6 +522,11 @@ def dInlineCallbackCycle : JV := .obj [("paths", .obj [("/a", .obj [("get", .obj
   ("callbacks", .obj [("c", .obj [("/cb", .obj [("$ref", .str "#/paths/~1a")])])]),
   ("responses", .obj [("200", .obj [("description", .str "ok")])])])])])]
 
+/-- finding HeaderCycle (new with 78418b3 + cbb0d05): a header that is a header of an encoding of its own content
+    (corpus f12_header_cycle) -/
+def dHeaderCycle : JV := .obj [("openapi", .str "3.0.0"), ("components", .obj [("headers", .obj [("H", .obj [("content", .obj [
+  ("multipart/form-data", .obj [("encoding", .obj [("f", .obj [("headers", .obj [("X", .obj [("$ref", .str "#/components/headers/H")])])])])])])])])]), ("paths", .obj [])]
+
 set_option maxRecDepth 1000000 in
 /-- the open findings: the load succeeds, the model's outcome is not the spec's, and exactly the class of the
     finding holds -/
@@ -532,6 +540,8 @@ theorem witness_documents :
     (outcome codeCfg (mkDs dComposition)).abnormal = ["crash:visit"] ∧ (outcome codeCfg (mkDs dComposition)).excl = ["CompositionCycle"] ∧
     isOk (outcome codeCfg (mkDs dInlineCallbackCycle)).load = true ∧ (outcome codeCfg (mkDs dInlineCallbackCycle)).hit.isNone = true ∧
     (outcome codeCfg (mkDs dInlineCallbackCycle)).abnormal = ["crash:marshal"] ∧ (outcome codeCfg (mkDs dInlineCallbackCycle)).excl = ["CallbackCycle"] ∧
+    isOk (outcome codeCfg (mkDs dHeaderCycle)).load = true ∧
+    (outcome codeCfg (mkDs dHeaderCycle)).abnormal = ["crash:validate"] ∧ (outcome codeCfg (mkDs dHeaderCycle)).excl = ["HeaderCycle"] ∧
     specAbnormal = [] := by
   decide +kernel
 
